@@ -423,3 +423,13 @@ func LibraryStack(dump string) string {
 
 // CancelGlue forgets bytes that were to ride with the next cursor report.
 func (c *Child) CancelGlue() { c.glue = nil }
+
+// SetGlue arranges for b to ride in front of (or behind) the next cursor
+// report the terminal sends, whoever asked for it, in the same write.
+func (c *Child) SetGlue(b []byte, before bool) {
+	c.glue = append([]byte{}, b...)
+	c.glueBefore = before
+}
+
+// GluePending reports whether bytes given to SetGlue are still waiting for a report.
+func (c *Child) GluePending() bool { return len(c.glue) > 0 }
